@@ -11,9 +11,11 @@ Model: Gsu/Model/Db.lean (the definitions `drv_c16` executes). `ov.sem k` is the
 overlay for key k (btree value, then every layer's change in order; `none` = invalid sequence),
 `IAgree ti` = every index has exactly the meaning `keymap i ti.rows` (the serial application of the
 committed transactions, `Info.rows`). `Extends snap latest` = latest is snap after any number of
-commits. Property theorems only; lemmas in Gsu/Proofs/Db.lean.
+commits. Property theorems only; lemmas in Gsu/Proofs/Db.lean and Gsu/Proofs/DbInv1–9.lean (the
+global invariant `DbInv`, kept by every `Op` of `step`; `no_loss_no_dup` is its corollary for all
+histories; hypotheses `OpsOK` as in C06).
 -/
-import Gsu.Proofs.DbStep
+import Gsu.Proofs.DbInv9
 import Gsu.Gen.Dbphys
 namespace Gsu.Props.C16
 open Gsu.Db
@@ -75,18 +77,61 @@ theorem deltas_sum (ti : Info) (d : TDif) (n : Nat) (res : List Layer) (bts : Li
    layersOK_lay d ti hl, layersOK_applyMerge ti n res hn hl,
    layersOK_applyPersist ti bts (by intro e; simp [e] at hn) hl⟩
 
-/-- no_loss_no_dup over whole histories — PARTIAL. Full statement: for every `ops : List Op`,
-every table of `run State.init ops` satisfies `IAgree ∧ DeltasOK ∧ LayersOK`. Proved here: the
-inductive step for the three background steps and the index part of commit (`prefix_stable*`,
-`no_loss_no_dup_merge/persist`, `deltas_sum`). Missing: the assembly into one invariant of
-`step` (needs the pending-result invariant "the stored result is the merge of a prefix of the
-latest layers", which is `Extends`, threaded through `State.pend`) and the row-level part of
-the commit step (see C06 `index_agrees_commit_partial`). -/
-theorem no_loss_no_dup_partial (snap mid latest : Info) (n : Nat) (d : TDif)
+/-- merge applied after one more commit than it was computed on (was `no_loss_no_dup_partial`;
+the statement over whole histories is `no_loss_no_dup` below) -/
+theorem no_loss_no_dup_merge_after_commit (snap mid latest : Info) (n : Nat) (d : TDif)
     (h1 : Extends snap mid) (hd : d.muts.length = mid.idx.length) (hlat : latest = lay d mid)
     (hn : ∀ ov ∈ snap.idx, n + 1 ≤ ov.layers.length) (h : IAgree latest) :
     IAgree (latest.applyMerge n (snap.mergeCompute n)) :=
   iagree_applyMerge snap latest n (h1.trans (hlat ▸ extends_lay d mid hd)) hn h
+
+/-- the pending-result invariant is kept by a commit: what Meta.Merge / Meta.Persist computed on a
+snapshot is exactly what they would compute on the state after any commit (commits only append
+layers and deltas), so the result stored between compute and apply is always "the merge / the
+save of a prefix of the current layers" -/
+theorem pending_stable_commit (ti : Info) (d : TDif) (n : Nat) (h : TblInv ti)
+    (hm : d.muts.length = ti.idx.length) (hn : n + 1 ≤ ti.deltas.length) :
+    (lay d ti).mergeCompute n = ti.mergeCompute n ∧ n + 1 ≤ (lay d ti).deltas.length ∧
+    (lay d ti).persistCompute = ti.persistCompute :=
+  ⟨((pstable_lay h d hm).1 n hn).1, ((pstable_lay h d hm).1 n hn).2, (pstable_lay h d hm).2⟩
+
+/-- the apply steps on the current state, with the result the compute step returns for it -/
+theorem apply_keeps_table_invariant (ti : Info) (n : Nat) (h : TblInv ti) (hn : n + 1 ≤ ti.deltas.length) :
+    TblInv (ti.applyMerge n (ti.mergeCompute n)) ∧ TblInv (ti.applyPersist ti.persistCompute) :=
+  ⟨tblinv_applyMerge h n hn, tblinv_applyPersist h⟩
+
+/-- the assembled step: every operation of `Gsu.Db.step` keeps the global invariant `DbInv`, which
+threads the pending merge / persist result (`PendInv`: it equals the compute step on the CURRENT
+state) and the pending index build through `State.pend` / `State.build` -/
+theorem invariant_step (s : State) (op : Op) (h : DbInv s) (hok : OpOK s op) : DbInv (step s op).1 :=
+  dbinv_step h op hok
+
+/-- no_loss_no_dup — FULL, over whole histories: for every history `ops` of well-formed operations
+(any interleaving of transactions' writes, commits, aborts, merge compute / apply, persist
+compute / apply, index builds), every table of `run State.init ops` satisfies
+`IAgree ∧ DeltasOK ∧ LayersOK`: every index has exactly the logical contents of the serial
+application of the committed transactions (`Info.rows`), nothing lost, duplicated or reordered;
+`BtreeNrows + Σ deltas = Nrows` (sizes too); every index has as many layers as there are deltas.
+Also: the rows have unique offsets and unique keys on every index, and `nrows = |rows|`. -/
+theorem no_loss_no_dup (ops : List Op) (hok : OpsOK State.init ops) (j : Nat) (ti : Info)
+    (hj : (run State.init ops).mt[j]? = some ti) :
+    IAgree ti ∧ DeltasOK ti ∧ LayersOK ti ∧ TblInv ti :=
+  have h := (dbinv_reachable ops hok).tbl j ti hj
+  ⟨h.agree, h.deltas, h.layers, h⟩
+
+/-- in every reachable state the stored merge result is the merge of the current state's first
+n+1 layers of every index, and the stored persist results are the saves of the current base
+layers — whatever was committed since they were computed -/
+theorem pending_result_current (ops : List Op) (hok : OpsOK State.init ops) :
+    PendInv (run State.init ops).mt (run State.init ops).pend :=
+  (dbinv_reachable ops hok).pend
+
+/-- statistics over whole histories: with fresh record offsets (append-only store) `size` is the
+sum of the committed rows' sizes and `nrows` their number, in every reachable state -/
+theorem stats_exact (ops : List Op) (hok : OpsOK State.init ops) (hfr : (newOffs ops).Nodup)
+    (j : Nat) (ti : Info) (hj : (run State.init ops).mt[j]? = some ti) :
+    ti.nrows = ti.rows.length ∧ ti.size = rowsSize ti.rows :=
+  info_exact_reachable ops hok hfr j ti hj
 
 /-- persist never leaves a committed change unsaved by skipping its table: a skipped table has an
 empty base layer in every index (test of fixes/15b), and (G) the code uses that test -/
@@ -111,5 +156,28 @@ example : ∃ (latest snap : Overlay) (new : List Layer),
   ⟨⟨FMap.empty, [FMap.empty, Layer.ins FMap.empty [1] (.add 5), Layer.ins FMap.empty [1] (.upd 7)]⟩,
    ⟨FMap.empty, [FMap.empty, Layer.ins FMap.empty [1] (.add 5)]⟩,
    [Layer.ins FMap.empty [1] (.upd 7)], rfl, by decide, by simp, by decide⟩
+
+/-- a concrete history: a merge computed on the state after t0, applied after t1 committed; a
+persist computed before and applied after the commit of t2, whose snapshot is older than t1's
+commit and the merge; then an index build and a commit onto the new index -/
+def hist : List Op := [.table 2,
+  .begin_ 0, .out 0 0 ⟨20, 5, [[1], [7]]⟩, .out 0 0 ⟨30, 6, [[2], [8]]⟩, .commit 0,
+  .begin_ 1, .begin_ 2,
+  .upd 1 0 20 ⟨40, 9, [[1], [9]]⟩,
+  .mergeC 0 1, .commit 1, .mergeA,
+  .del 2 0 30,
+  .persistC, .commit 2, .persistA,
+  .buildC 0 [(40, [3])], .buildA,
+  .begin_ 3, .out 3 0 ⟨50, 4, [[4], [4], [4]]⟩, .commit 3]
+
+-- non-vacuity of `no_loss_no_dup`: the history is well-formed; the merge and the persist really
+-- are pending across a successful commit; the final state has the rows of the serial application
+example : OpsOK State.init hist := opsOKb_sound _ _ (by decide)
+example : (match (run State.init (hist.take 10)).pend with | .merge 0 1 _ => true | _ => false) = true ∧
+    (step (run State.init (hist.take 9)) (.commit 1)).2 = "ok" := by decide
+example : (match (run State.init (hist.take 14)).pend with | .persist [(0, _)] => true | _ => false) = true ∧
+    (step (run State.init (hist.take 13)) (.commit 2)).2 = "ok" := by decide
+example : ((run State.init hist).mt.map fun ti => (ti.rows.map (·.off), ti.nrows, ti.deltas.length,
+    ti.idx.map (·.layers.length))) = [([40, 50], 2, 4, [4, 4, 4])] := by decide
 
 end Gsu.Props.C16
